@@ -86,9 +86,10 @@ func (r *REPL) Run(line string) error {
 		// Detect that we should start a continuation line
 		// FIXME detect EOF properly!
 		errText := err.Error()
-		if strings.Contains(errText, "unexpected EOF while parsing") || strings.Contains(errText, "EOF while scanning triple-quoted string literal") {
+		if strings.Contains(errText, "unexpected EOF while parsing") || strings.Contains(errText, "EOF while scanning triple-quoted string literal") || strings.Contains(errText, "EOF while scanning string literal") {
 			stripped := strings.TrimSpace(toCompile)
-			isComment := len(stripped) > 0 && stripped[0] == '#'
+			// a comment or white space only: there is no statement to continue
+			isComment := len(stripped) == 0 || stripped[0] == '#'
 			if !isComment {
 				r.continuation = true
 				r.previous += string(line) + "\n"
